@@ -18,7 +18,8 @@ LEVEL = "proof"
 def recordings(tier):
     rs = [P.spec([[0, 150], [150, 130]], name="gapped-100-per-file-150+130"),
           P.spec([[0, 300000], [300000, 260000]], srn=200000, continuous=1, name="continuous-200k-per-file"),
-          P.spec([[0, 150], [170, 130]], name="gapped-channel-path-longer-than-300-characters", deep=1)]
+          P.spec([[0, 150], [170, 130]], name="gapped-channel-path-longer-than-300-characters", deep=1),
+          P.spec([[0, 150], [150, 130]], subdir_cadence=1, name="gapped-one-file-per-subdirectory")]
     if tier == "thorough":
         rs += [P.spec([[30, 100], [250, 10], [260, 350]], name="gapped-midfile-start-and-gap"),
                P.spec([[0, 64], [64, 64], [128, 64], [192, 64]], srn=64, subdir_cadence=1, nsub=2, dtype="f4",
